@@ -45,7 +45,8 @@ END_SCHEMA;
 # ids for which a `tgt` instance exists: every number spelled with the digits 0 1 9 (up to 5 digits) that does not
 # contain "90" - so the reference alphabet reaches both resolvable and unresolvable grammar-valid names
 REF_IDS = frozenset(v for n in range(1, 6) for t in itertools.product('019', repeat=n)
-                    for v in [int(''.join(t))] if v > 0 and '90' not in str(v))
+                    for v in [int(''.join(t))] if v > 0 and '90' not in str(v)) | frozenset([2147483647, 2147483646, 32767, 65535])
+# (the largest representable instance name exists too: an unrepresentable name must not silently resolve to it)
 
 CONTEXTS = [(',', 'comma'), (')', 'paren'), (' ,', 'space'), ('/*c*/,', 'comment')]
 CTX_NAMES = [c[1] for c in CONTEXTS]
